@@ -192,3 +192,66 @@ def call_and_capture(mod, client_cls, is_async, method_name, kwargs, data=None):
         return captured, ("ok", r)
     except BaseException as e:  # noqa
         return captured, ("exc", e)
+
+
+def call_and_capture_ws(mod, mods, client_cls, method_name, kwargs):
+    """Subscription counterpart of call_and_capture: scripted in-memory graphql-transport-ws connection
+    (ack, then complete); returns the payloads of the subscribe frames the client sent."""
+    import asyncio
+
+    class _FakeWS:
+        def __init__(self):
+            self.sent, self.frames, self.closed = [], ['{"type": "connection_ack"}', '{"type": "complete", "id": "x"}'], False
+
+        async def send(self, m):
+            self.sent.append(m)
+
+        async def recv(self):
+            return self.frames.pop(0)
+
+        def __aiter__(self):
+            return self
+
+        async def __anext__(self):
+            if self.closed or not self.frames:
+                raise StopAsyncIteration
+            return self.frames.pop(0)
+
+        async def close(self, *a, **k):
+            self.closed = True
+
+    ws = _FakeWS()
+
+    class _CM:
+        async def __aenter__(self_):
+            return ws
+
+        async def __aexit__(self_, *e):
+            return False
+    base_mod = mods.get("async_base_client") or mods.get("async_base_client_open_telemetry")
+    old = base_mod.ws_connect
+    base_mod.ws_connect = lambda *a, **k: _CM()
+    status = ("ok", None)
+    try:
+        c = client_cls(ws_url="ws://verif.invalid")
+
+        async def drain():
+            async for _ in getattr(c, method_name)(**kwargs):
+                pass
+        try:
+            asyncio.run(drain())
+        except BaseException as e:  # noqa
+            status = ("exc", e)
+    finally:
+        base_mod.ws_connect = old
+    subs = []
+    for m in ws.sent:
+        try:
+            j = json.loads(m)
+        except Exception:  # noqa
+            continue
+        if j.get("type") == "subscribe":
+            body = dict(j.get("payload") or {})
+            body.setdefault("variables", {})
+            subs.append(body)
+    return subs, status
